@@ -336,3 +336,78 @@ Proof.
     { eapply Permutation_in; [apply Permutation_sym; exact Hp|]. vm_compute. tauto. }
     vm_compute in Hin. intuition congruence.
 Qed.
+
+(* ---- the recogniser: scan accepts exactly the bodies made of stage groups each closed by a barrier --- *)
+Lemma scan_shape_len : forall k l, (length l <= k)%nat -> forall cur n m, scan cur n l = Some m ->
+  if cur then exists a gs, m = (n + 1 + length gs)%nat /\ l = repeat TStage (S a) ++ TSync :: groups gs
+  else exists gs, m = (n + length gs)%nat /\ l = groups gs.
+Proof.
+  induction k as [|k IH]; intros l Hl cur n m H.
+  - destruct l; [|simpl in Hl; inversion Hl]. simpl in H. destruct cur; [discriminate|].
+    inversion H; subst. exists []. split; [simpl; lia|reflexivity].
+  - destruct l as [|t r].
+    { simpl in H. destruct cur; [discriminate|]. inversion H; subst. exists []. split; [simpl; lia|reflexivity]. }
+    destruct t; try (simpl in H; discriminate).
+    simpl in Hl.
+    assert (Hcases : (exists r', r = TSync :: r') \/ scan cur n (TStage :: r) = scan true n r).
+    { destruct r as [|t' r']; [right; reflexivity|]. destruct t'; [right; reflexivity | left; eexists; reflexivity | right; reflexivity]. }
+    destruct Hcases as [[r' ->]|E].
+    + simpl in H. simpl in Hl. apply (IH r' ltac:(lia) false) in H. destruct H as [gs [Hm Hr]]. subst r'.
+      destruct cur.
+      * exists 0%nat, gs. split; [simpl; lia|reflexivity].
+      * exists (0%nat :: gs). split; [simpl; lia|reflexivity].
+    + rewrite E in H. apply (IH r ltac:(lia) true) in H. destruct H as [a [gs [Hm Hr]]]. subst r.
+      destruct cur.
+      * exists (S a), gs. split; [simpl; lia|reflexivity].
+      * exists (S a :: gs). split; [simpl; lia|]. unfold groups. simpl. rewrite <- app_assoc. reflexivity.
+Qed.
+
+Theorem scan_shape : forall l n, scan false 0 l = Some n -> exists gs, length gs = n /\ l = groups gs.
+Proof.
+  intros l n H. apply (scan_shape_len (length l) l (le_n _) false) in H. destruct H as [gs [Hm Hl]].
+  exists gs. split; [lia|exact Hl].
+Qed.
+
+Lemma scan_group : forall g cur n rest, scan cur n (repeat TStage (S g) ++ TSync :: rest) = scan false (S n) rest.
+Proof.
+  induction g as [|g IH]; intros cur n rest; [reflexivity|].
+  rewrite <- (IH true n rest). reflexivity.
+Qed.
+
+Theorem scan_groups : forall gs n, scan false n (groups gs) = Some (n + length gs)%nat.
+Proof.
+  induction gs as [|g gs IH]; intros n; [simpl; f_equal; lia|].
+  change (groups (g :: gs)) with ((repeat TStage (S g) ++ [TSync]) ++ groups gs).
+  rewrite <- app_assoc. change ([TSync] ++ groups gs) with (TSync :: groups gs).
+  rewrite scan_group, IH. f_equal. simpl. lia.
+Qed.
+
+Lemma scan_clean_body p : scan false 0 (clean_body p) = Some (nstages p).
+Proof. unfold clean_body. rewrite scan_groups, map_length. reflexivity. Qed.
+
+Theorem recognised_shape : forall p lb st body, recognised p lb st body = true ->
+  lb = 0 /\ st = 1 /\ (2 <= nstages p)%nat /\ exists gs, length gs = nstages p /\ body = groups gs.
+Proof.
+  intros p lb st body H. unfold recognised in H.
+  destruct (scan false 0 body) as [n|] eqn:E; [|rewrite andb_false_r in H; discriminate].
+  apply andb_prop in H as [H1 H2]. apply andb_prop in H1 as [Hlb Hst]. apply andb_prop in H2 as [H2 H3].
+  apply Z.eqb_eq in Hlb, Hst. apply Nat.leb_le in H2. apply Nat.eqb_eq in H3. subst n.
+  apply scan_shape in E. repeat split; try assumption.
+Qed.
+
+Theorem clean_recognised : forall p, (2 <= nstages p)%nat -> recognised p 0 1 (clean_body p) = true.
+Proof.
+  intros p H. unfold recognised. rewrite scan_clean_body.
+  apply andb_true_intro. split; [reflexivity|].
+  apply andb_true_intro. split; [apply Nat.leb_le; exact H | apply Nat.eqb_refl].
+Qed.
+
+(* an op that is neither a stage op nor a barrier anywhere behind the index ops, a barrier that closes no
+   stage, or a last stage without barrier: not recognised *)
+Example stray_not_recognised :
+  scan false 0 [TStage; TSync; TStage; TSync; TOther; TStage; TSync] = None /\
+  scan false 0 [TStage; TSync; TStage; TOther; TSync] = None /\
+  scan false 0 [TStage; TSync; TSync; TStage; TSync] = None /\
+  scan false 0 [TStage; TSync; TStage; TSync; TStage] = None /\
+  scan false 0 [TStage; TStage; TSync; TStage; TSync] = Some 2%nat.
+Proof. repeat split; reflexivity. Qed.
